@@ -5,7 +5,9 @@ from props.c16 import hx
 
 METHODS = ["GET", "POST", "PUT", "DELETE", "HEAD", "OPTIONS", "PATCH"]
 URIS = ["https://a.b/", "https://a.b/x?q=1", "http://example.com:8080/p/a/t/h", "https://[::1]:4433/%7Euser/index.html?a=b&c=d",
-        "https://host.example/" + "seg/" * 20, "https://a.b/*", "https://xn--nxasmq6b.example/?", "https://user.example:1/a//b"]
+        "https://host.example/" + "seg/" * 20, "https://a.b/*", "https://xn--nxasmq6b.example/?", "https://user.example:1/a//b",
+        # absolute-form targets with an empty path (with and without query): the receiver sees path "/"
+        "https://www.example.com?lang=en&page=2", "https://a.b", "http://a.b:8080?x", "https://a.b?", "https://a.b/?b"]
 NAMES = ["x-a", "x-b", "accept", "content-type", "cookie", "x-long-header-name-with-many-characters", "te", "user-agent", "etag", "x-0"]
 STATUS = [200, 201, 204, 206, 301, 404, 418, 500, 599]
 
